@@ -43,7 +43,9 @@ RULE = (
     "BaseException-class every 3rd on the write primitives; thorough: all for both), natural failures (3 un-storable kinds x 5 positions), mode='w' "
     "onto each kind of existing target with every k up to the FileExistsError, and typed-path cases: store='zip' with an extension-less path / "
     "store='auto' x mode x pre-existing real target x an unrelated file or complete object of the other store at the other spelling of the name, "
-    "judged on the fault-free save and on sampled line faults. "
+    "judged on the fault-free save and on sampled line faults. Widening: graphs with sub-objects shared by several paths, arrays / tensors in non-contiguous, read-only and "
+    "expanded layouts, 60 attributes + a 25-item list, 20 nesting levels (sparser positions); save options (compression None/0/9 x skip list with a name and a type) crossed with line faults; "
+    "neutral calls (load / print_file of an unrelated complete object) between the injections of every 5th case. "
     "One case = one residue class of fault positions of one configuration (K/J are discovered by injecting until the save completes). "
     "non-trivial = a fault fired after >=1 store write and before the last one; distinct = (graph, store, mode, pre, fault class, residue)"
 )
@@ -75,7 +77,9 @@ N_GRAPHS = {"quick": 6, "thorough": 7}
 TYPED_GRAPHS = {"quick": 1, "thorough": 3}
 # variant -> (real store, store argument, typed name); the real target is always target.zip (zip) / target (dir)
 TYPED_VARIANTS = {"zip_noext": ("zip", "zip", "target"), "auto_zip": ("zip", "auto", "target.zip"), "auto_dir": ("dir", "auto", "target")}
-BASE_EXCS = ["abort", "keyboard", "exit"]  # InjectedAbort(BaseException), KeyboardInterrupt, SystemExit
+BASE_EXCS = ["abort", "keyboard", "exit"]
+# (compression_level, skip) passed to save(); the reference object is saved with the same options
+SAVE_OPTIONS = [(None, ()), (9, ("s", "child")), (0, ("nums", "__ndarray__")), (None, ("i", "__str__")), (9, ())]  # InjectedAbort(BaseException), KeyboardInterrupt, SystemExit
 WRITE_LABELS = ("Group.create_array", "Group.require_group", "Attributes.__setitem__", "Array.__setitem__", "ZipFile.write")
 
 
@@ -104,6 +108,24 @@ def plan(tier, seed):
                         ti += 1
                         specs.append({"fault": "typed", "graph": gi, "variant": variant, "store": TYPED_VARIANTS[variant][0], "mode": mode, "pre": pre, "sibling": sib,
                                       "stride": tstride, "offset": (ti + seed) % tstride, "residue": 0, "nres": 1, "exc": "exception" if ti % 3 else "base", "_must_run": tier == "quick"})
+    # widening: graphs with shared sub-objects / exotic memory layouts / 150 attributes / 30 levels (sparser fault positions),
+    # and save options crossed with the faults (compression None / 0 / 9, a skip list with a name and a type)
+    xs, xio = (61, 17) if tier == "quick" else (7, 2)
+    xi = 0
+    for gi in (100, 101, 102, 103):
+        for store in STORES:
+            for mode, pre in (("w", "none"), ("o", "complete")):
+                xi += 1
+                exc = "exception" if xi % 2 else "base"
+                specs.append({"fault": "line", "exc": exc, "graph": gi, "store": store, "mode": mode, "pre": pre, "stride": xs, "offset": (xi + seed) % xs, "residue": 0, "nres": 1})
+                specs.append({"fault": "io", "exc": exc, "labels": IO_LABELS[store], "graph": gi, "store": store, "mode": mode, "pre": pre, "stride": xio, "offset": (xi + seed) % xio, "residue": 0, "nres": 1})
+    os_ = 19 if tier == "quick" else 3
+    for store in STORES:
+        for oi, opts in enumerate(SAVE_OPTIONS):
+            for gi in ((0,) if tier == "quick" else (0, 1, 3)):
+                xi += 1
+                specs.append({"fault": "line", "exc": "exception" if xi % 3 else "base", "graph": gi, "store": store, "mode": "o" if oi % 2 else "w", "pre": "complete" if oi % 2 else "none",
+                              "stride": os_, "offset": (xi + seed) % os_, "residue": 0, "nres": 1, "opts": oi})
     ci = 0
     for gi in range(ng):
         for store in STORES:
@@ -311,7 +333,7 @@ def _graph(ctx, gi):
     return g
 
 
-def _reference(ctx, key, g, store):
+def _reference(ctx, key, g, store, save_kwargs=None):
     """what a fault-free save of g loads to (None if g cannot be saved at all)."""
     refs = ctx.state["refs"]
     if key in refs:
@@ -321,7 +343,7 @@ def _reference(ctx, key, g, store):
     p = os.path.join(d, "ref_%s_%s" % (abs(hash(key)), _target_name(store)))
     _remove(p)
     try:
-        g.save(p, mode="w", store=store)
+        g.save(p, mode="w", store=store, **(save_kwargs or {}))
         refs[key] = ctx.state["load"](p)
     except Exception:  # noqa: BLE001
         refs[key] = None
@@ -345,18 +367,38 @@ def _phase(fired_fn):
     return fn
 
 
-def attempt(ctx, sbx, g, gkey, store, mode, pre, arm, fault_class, fields, save_path=None, store_arg=None):
+def _save_kwargs(opts):
+    import numpy as np
+
+    if opts is None:
+        return {}
+    comp, skip = SAVE_OPTIONS[opts]
+    return {"compression_level": comp, "skip": [{"__ndarray__": np.ndarray, "__str__": str}.get(s, s) for s in skip]}
+
+
+def attempt(ctx, sbx, g, gkey, store, mode, pre, arm, fault_class, fields, save_path=None, store_arg=None, opts=None):
     """run one save() under an armed fault and judge the state it leaves.  Returns a small record.
     save_path / store_arg: what is passed to save() when that differs from the real target / real store."""
     lf, cf, dq, load = ctx.state["lf"], ctx.state["cf"], ctx.state["deq"], ctx.state["load"]
     target = sbx.target
     _place_pre(ctx, store, pre, target)
+    if ctx.state.get("neutral"):
+        # neutral calls between the steps of the history: loading / printing an unrelated complete object
+        import contextlib
+        import io
+
+        from quantem.core.io import print_file
+
+        tpl = _template(ctx, store, "complete")
+        with contextlib.redirect_stdout(io.StringIO()):
+            load(tpl)
+            print_file(tpl, depth=1)
     before_others = sbx.others()
     before_target = tree(target)
     arm()
     raised = None
     try:
-        g.save(target if save_path is None else save_path, mode=mode, store=store if store_arg is None else store_arg)
+        g.save(target if save_path is None else save_path, mode=mode, store=store if store_arg is None else store_arg, **_save_kwargs(opts))
     except BaseException as e:  # noqa: BLE001
         raised = e
     finally:
@@ -396,7 +438,7 @@ def attempt(ctx, sbx, g, gkey, store, mode, pre, arm, fault_class, fields, save_
         return rec
 
     # a graph with an un-storable member has no complete new object at all
-    ref = _reference(ctx, gkey, g, store) if fault_class != "natural" else None
+    ref = _reference(ctx, (gkey, opts) if opts is not None else gkey, g, store, _save_kwargs(opts)) if fault_class != "natural" else None
     if raised is None:
         # (c) the save completed (fault position beyond the end, or swallowed): the target must be the complete object
         if fired:
@@ -481,6 +523,10 @@ def run_case(spec, idx, ctx):
         return "exception" if exc == "exception" else BASE_EXCS[n % len(BASE_EXCS)]
 
     kw = {}
+    ctx.state["neutral"] = idx % 5 == 0
+    if spec.get("opts") is not None:
+        kw["opts"] = spec["opts"]
+        fields["save_options"] = spec["opts"]
     if fault == "typed":
         _, store_arg, typed_name = TYPED_VARIANTS[spec["variant"]]
         kw = {"save_path": os.path.join(sbx.sb, typed_name), "store_arg": store_arg}
